@@ -32,6 +32,7 @@ EXPLANATION = (
     "expansion is appended; the past-the-end target is mapped to len(new_commands) on the same path that sets the no-op flag and the "
     "no-op is appended under exactly that flag; writes_to() of each class equals the register operand written by its executor "
     "handler (C04 signatures); every write to a Q register by an instruction other than `set` must drop the tracked value; the scratch register for carbon-carbon gates is chosen outside a set that receives every Register operand of every instruction and never shrinks."
+    ' C08.I: no early exit in the rewrite loop and, after it, the new command list may only grow at its end. C08.Z: no truthiness test on an int-typed value.'
 )
 LEVEL_TEXT = (
     "Static analysis, partial: the structural conditions of jump retargeting and of the Q-register value tracking are decided for all "
